@@ -617,7 +617,7 @@ class implicitmodel(timemodel):
         self.dim = self.neq * field.nelem
         self.jacobian = np.zeros([self.dim, self.dim])
         eps = [
-            epsdiff * math.sqrt(np.spacing(1.0)) * np.sum(np.abs(q)) / field.nelem
+            epsdiff * math.sqrt(np.spacing(1.0)) * (np.sum(np.abs(q)) / field.nelem or 1.0) # never a zero perturbation
             for q in field.data
         ]
         self.calcrhs(field)
